@@ -7,6 +7,31 @@ HERE = os.path.dirname(os.path.dirname(os.path.abspath(__file__)))
 
 # id -> (level category, technique, level text, level note, design ref)
 CLAIMED = {
+    "C02": ("exploration",
+            "stateful property-based testing: proptest-generated operation histories x read schedules x constructors, every observer compared with a Vec+cursor reference model after every step",
+            "Generated reader histories (200k quick / 5M thorough, plus long inputs with 1000/4096/16384-byte chunks) are interpreted against the real DeferredReader and a reference model; buf/buf_len/buf_ptr/position/mark/is_complete/is_at_end/io_error and the results of request*, advance_with_buf and check_io_error are compared after every operation. Failures are shrunk by proptest and stored as JSON replays.",
+            "Trusts the scheduled source (harness/src/source.rs) and the model in harness/src/reader_model.rs; sampling only, position wrap-around unreachable.",
+            "DESIGN.md section 4, C02"),
+    "C11": ("exploration",
+            "stateful property-based testing: proptest-generated writer histories x scripted sinks (short writes, Interrupted, Ok(0), failures at generated call indices) against a reference stream and the sink's call log",
+            "Generated DeferredWriter histories (60k quick / 1.5M thorough) run against scripted sinks; without failures the sink content must equal the reference stream after every flush and after drop (integers as canonical decimal text); with failures: writes succeed, the error is reported exactly once by the next flush/check_io_error, the sink is not called in between, the bytes before the first failure are an exact prefix and the total is an in-order selection of the written stream.",
+            "Trusts the scripted sink and the model in harness/src/writer_model.rs; duplicate detection relies on position-dependent pseudo-random content.",
+            "DESIGN.md section 4, C11"),
+    "C13": ("exploration",
+            "property-based testing against an arbitrary-precision string-arithmetic reference (12 integer types x 4 scanners x offsets x pre-buffered amounts) plus enumerated sweep of the 8-byte SWAR kernel",
+            "All four scanners are compared with a reference that works on decimal strings (exact for 128-bit types) for generated inputs rich in boundary values; the fast variants must agree with the simple ones for every amount of buffered data. The SWAR kernel is swept over every digit string of length 0..6 (quick; strided 7-8 digits) or 0..8 (thorough, complete) with several terminators and, per lane, all 256 byte values. Runs in a build with overflow checks and in a plain release build.",
+            "Trusts the reference in harness/src/props/c13.rs and Rust's integer to_string/MIN/MAX.",
+            "DESIGN.md section 4, C13"),
+    "C14": ("exploration",
+            "stateful property-based testing with out-of-contract calls caught by catch_unwind, lying sources and panicking sinks; model comparison after every caught panic; run with debug assertions, in release mode and under AddressSanitizer",
+            "Reader and writer histories extended with calls documented to panic (advance past the buffer), sources that over-report and sinks that panic are executed in three builds (debug assertions + overflow checks, release, release + AddressSanitizer). After every step and every caught panic the exposed window must have the model's length and content; documented panics must happen; buf_write_ptr must never claim space it does not have. Worker crashes (signals, sanitizer aborts) are attributed to the running case and reported as violations.",
+            "ASan shards need the nightly toolchain; stale reads inside the reader's own allocation are only visible through wrong content.",
+            "DESIGN.md section 4, C14"),
+    "C16": ("exploration",
+            "complete small-scope enumeration (all strings over {SP,TAB,CR,LF,x} up to length 6 x offsets x feeds x patterns) plus proptest sampling, against reference scanners and a delivered-byte counter",
+            "tabs_or_spaces, newline, next_newline and fixed are compared with reference implementations on every string over a 5-letter alphabet up to length 6, every start offset, three feeds (fully buffered, bytewise with chunk 1, 3-byte chunks) and every prefix/wrong-byte/too-long pattern; returned offset, unchanged cursor and window, and the number of bytes pulled from the source (<= bytes needed to decide + chunk - 1) are checked. Sampled beyond the small scope with arbitrary bytes and generated feeds.",
+            "Trusts the reference scanners in harness/src/props/c16.rs.",
+            "DESIGN.md section 4, C16"),
     "C15": ("exploration",
             "complete enumeration of the finite combinator domain + proptest-drawn payloads against a reference semantics table with closure invocation counters",
             "Every (combinator, input case, continuation result) combination of the 15 combinators is executed and compared with a reference table written from the documentation (result value, closure invocation count, closure argument, mutation); payload values are additionally sampled by proptest. The domain is finite, so the enumeration is complete (exhaustive: true).",
